@@ -486,7 +486,7 @@ func genHistory(seed uint64, variant string, pool []*PoolProg, admitted []int) *
 	if long {
 		var small []int
 		for _, ix := range admitted {
-			if len(pool[ix].Src) < 2500 && (pool[ix].Ref[variant] == nil || pool[ix].Ref[variant].Len < 8192) {
+			if len(pool[ix].Src) < 6000 && (pool[ix].Ref[variant] == nil || pool[ix].Ref[variant].Len < 65536) {
 				small = append(small, ix)
 			}
 		}
@@ -512,7 +512,7 @@ func genHistory(seed uint64, variant string, pool []*PoolProg, admitted []int) *
 	// program selection: 3..8, twins together when possible
 	want := r.Range(3, 8)
 	if long {
-		want = r.Range(10, 24) // many different programs: many distinct instruction forms in one process
+		want = r.Range(20, 48) // many different programs: many distinct instruction forms in one process
 	}
 	if want > len(admitted) {
 		want = len(admitted)
@@ -570,9 +570,9 @@ func genHistory(seed uint64, variant string, pool []*PoolProg, admitted []int) *
 	k := histKnobs{wParse: pick(r, ws) + 1, wExec: pick(r, ws) + 1, wReexec: pick(r, ws), wClock: pick(r, ws), wGc: pick(r, ws), wLog: pick(r, ws), wSweep: pick(r, ws),
 		pPrefill: pick(r, []int{0, 30, 60, 90}), clockScale: r.Intn(5), nops: pick(r, []int{4, 8, 15, 25, 40})}
 	if long {
-		k.nops = pick(r, []int{120, 200, 400})
+		k.nops = pick(r, []int{200, 400, 800})
 		if !longHistories {
-			k.nops = pick(r, []int{100, 160})
+			k.nops = pick(r, []int{140, 220})
 		}
 		k.wParse += 2
 		k.wExec, k.wReexec = k.wExec+2, k.wReexec+1
